@@ -386,12 +386,14 @@ def run_shard(spec, seed, tier):
                 word = (spec["first"],) + rest
                 case = {"scheme": "CJJ14.PiPack", "history": to_events(word), "seed": 1}
                 count += 1
+                if len(first) >= 3:
+                    continue  # the tree is broken in three different ways already: no need to finish the enumeration
                 try:
                     body(case, res)
                 except Violation as v:
                     if v.bucket not in first:
                         first[v.bucket] = (case, str(v))
-        res.exhaustive = True
+        res.exhaustive = len(first) < 3
         res.extra["exhaustive_histories"] = count
         res.extra["exhaustive_bounds"] = "all histories of depth <= %d over %r (one scheme)" % (depth, ALPHABET)
         for bucket, (case, msg) in first.items():
